@@ -11,5 +11,6 @@ CONSTANTS
   NO_INS_ON_DELETE = TRUE
   SCAN_NO_FINAL = FALSE
   SCAN_NO_ENTRY_CHECK = FALSE
+  SCAN_DUP = FALSE
 INVARIANTS LinOK ScanOK NvOK RootOpsOK Quiescent
 PROPERTY Termination
